@@ -44,4 +44,7 @@ def run(ctx):
         ctx.sample({"stage": "paths", "event": json.loads(f.readline())})
     ctx.evaluations += groups * 16
     ctx.nontrivial += groups * 16
+    many = ctx.path("many.ndjson")
+    vlib.kvh(["trace", "many", ctx.seed, ctx.rundir, 70000, "oligo"], out=many)
+    vlib.validate_trace(ctx, "FactsTrace", many, "70 000 records from a pool of 12: every row judged (ordinals beyond 2^16), mmap and batch writer", "manyo")
     ctx.exhaustive = False
